@@ -58,23 +58,70 @@ example : inNetwork (IP4.ofInt 0xc0a80a5a false) (IP4.ofInt 0xc0a80a00 false) 24
 example : inNetwork (IP4.ofInt 0xc0a80a5a false) (IP4.ofInt 0xc0a80a5a false) 24 = .ok false := by decide
 example : inNetwork (IP4.ofInt 0 false) (IP4.ofInt 0 false) 33 = .error .value := by decide
 
-/-- `parse_cidr` on text, for every address, prefix length and flag value: `"a.b.c.d/len"` gives the address and `len`
-when the host bits are zero or `allow_host` is set, RuntimeError when they are not, AssertionError for `len > 32`; and
-`"a.b.c.d/m.m.m.m"` with the netmask of `len` gives the same answer as `"a.b.c.d/len"`.  (The class-inference branch for
-texts without a slash is covered by the correspondence run only.) -/
-theorem cidr_text (b0 b1 b2 b3 : UInt8) (len : Nat) (infer allowHost : Bool) :
-    (parseCidr (dotted [b0, b1, b2, b3] ++ '/' :: fmtNat 10 len) infer allowHost =
-      if len > 32 then .error .assertion
-      else if !allowHost && decide (beDec [b0, b1, b2, b3] % 2 ^ (32 - len) ≠ 0) then .error .runtime
-      else .ok (ip4OfBytes b0 b1 b2 b3, len)) ∧
-    (∀ m0 m1 m2 m3 : UInt8, len ≤ 32 → beDec [m0, m1, m2, m3] = 2 ^ 32 - 2 ^ (32 - len) →
+/-- `parse_cidr` on text, for every address and every flag value, before and after the CIDR repair (`parseCidr` /
+`parseCidrS`).  `"a.b.c.d/D"` with `D` any non-empty string of decimal digits (leading zeros allowed: `"/08"`), `len` its
+value: AssertionError if `len > 32`, RuntimeError if the address has bits beyond `len` and `allow_host` is off, otherwise the
+address and `len` (`cidrLenResult`).  `"a.b.c.d/m.m.m.m"` with the netmask of `len` gives the same as `"a.b.c.d/len"`.
+(The form without a slash is `classful_inference`.) -/
+theorem cidr_text (b0 b1 b2 b3 : UInt8) (infer allowHost : Bool) :
+    (∀ D : Str, isDecStr D = true →
+      parseCidrS (dotted [b0, b1, b2, b3] ++ '/' :: D) infer allowHost =
+        cidrLenResult 32 (ip4OfBytes b0 b1 b2 b3) (beDec [b0, b1, b2, b3]) (foldDig 10 0 D) allowHost ∧
+      parseCidr (dotted [b0, b1, b2, b3] ++ '/' :: D) infer allowHost =
+        cidrLenResult 32 (ip4OfBytes b0 b1 b2 b3) (beDec [b0, b1, b2, b3]) (foldDig 10 0 D) allowHost) ∧
+    (∀ (m0 m1 m2 m3 : UInt8) (len : Nat), len ≤ 32 → beDec [m0, m1, m2, m3] = 2 ^ 32 - 2 ^ (32 - len) →
+      parseCidrS (dotted [b0, b1, b2, b3] ++ '/' :: dotted [m0, m1, m2, m3]) infer allowHost =
+        cidrLenResult 32 (ip4OfBytes b0 b1 b2 b3) (beDec [b0, b1, b2, b3]) len allowHost ∧
       parseCidr (dotted [b0, b1, b2, b3] ++ '/' :: dotted [m0, m1, m2, m3]) infer allowHost =
-        if !allowHost && decide (beDec [b0, b1, b2, b3] % 2 ^ (32 - len) ≠ 0) then .error .runtime
-        else .ok (ip4OfBytes b0 b1 b2 b3, len)) ∧
-    (ip4OfBytes b0 b1 b2 b3).raw = [b0, b1, b2, b3] :=
-  ⟨parseCidr_prefix b0 b1 b2 b3 len infer allowHost,
-   fun m0 m1 m2 m3 hl hm => parseCidr_netmask b0 b1 b2 b3 m0 m1 m2 m3 len hl hm infer allowHost,
-   by unfold ip4OfBytes IP4.raw; rw [u32_sign32 _ (leDec32_lt b0 b1 b2 b3), leEnc32_leDec32]⟩
+        cidrLenResult 32 (ip4OfBytes b0 b1 b2 b3) (beDec [b0, b1, b2, b3]) len allowHost) ∧
+    (ip4OfBytes b0 b1 b2 b3).raw = [b0, b1, b2, b3] := by
+  refine ⟨fun D hd => ⟨parseCidrS_prefixD b0 b1 b2 b3 D hd infer allowHost, parseCidr_prefixD b0 b1 b2 b3 D hd infer allowHost⟩, ?_, ?_⟩
+  · intro m0 m1 m2 m3 len hl hm
+    refine ⟨parseCidrS_netmask b0 b1 b2 b3 m0 m1 m2 m3 len hl hm infer allowHost, ?_⟩
+    rw [parseCidr_netmask b0 b1 b2 b3 m0 m1 m2 m3 len hl hm]
+    unfold cidrLenResult
+    rw [if_neg (show ¬ len > 32 by omega)]
+  · unfold ip4OfBytes IP4.raw; rw [u32_sign32 _ (leDec32_lt b0 b1 b2 b3), leEnc32_leDec32]
+
+example : cidrLenResult 32 (ip4OfBytes 10 1 0 1) 0x0a010001 16 false = .error .runtime ∧
+    cidrLenResult 32 (ip4OfBytes 10 1 0 1) 0x0a010001 16 true = .ok (ip4OfBytes 10 1 0 1, 16) ∧
+    cidrLenResult 32 (ip4OfBytes 10 1 0 1) 0x0a010001 33 true = .error .assertion ∧
+    parseCidrS "10.1.0.0/016".toList true false = .ok (ip4OfBytes 10 1 0 0, 16) := by decide +kernel
+
+/-- `x.get_network(D)` (`D` decimal digits, value `len ≤ 32`; the code parses `"255.255.255.255/D"` leniently, builds the
+netmask and ANDs): the address with its host bits cleared, and `len` — before and after the CIDR repair. -/
+theorem get_network (a : IP4) (D : Str) (hd : isDecStr D = true) (hl : foldDig 10 0 D ≤ 32) :
+    (∃ y, getNetworkWith parseCidrS a D = .ok (y, foldDig 10 0 D) ∧ y.Valid ∧
+      y.toUnsigned false = a.toUnsigned false - a.toUnsigned false % 2 ^ (32 - foldDig 10 0 D)) ∧
+    (∃ y, getNetwork a D = .ok (y, foldDig 10 0 D) ∧ y.Valid ∧
+      y.toUnsigned false = a.toUnsigned false - a.toUnsigned false % 2 ^ (32 - foldDig 10 0 D)) := by
+  have hS := parseCidrS_prefixD 255 255 255 255 D hd true true
+  have hO := parseCidr_prefixD 255 255 255 255 D hd true true
+  have hres : cidrLenResult 32 (ip4OfBytes 255 255 255 255) (beDec [255, 255, 255, 255]) (foldDig 10 0 D) true =
+      .ok (ip4OfBytes 255 255 255 255, foldDig 10 0 D) := by
+    unfold cidrLenResult
+    rw [if_neg (show ¬ foldDig 10 0 D > 32 by omega)]; rfl
+  rw [hres] at hS hO
+  constructor
+  · exact getNetwork_spec parseCidrS a D _ hl (fun x hx => by rw [hS] at hx; injection hx with hx; rw [← hx]) ⟨_, hS⟩
+  · exact getNetwork_spec parseCidr a D _ hl (fun x hx => by rw [hO] at hx; injection hx with hx; rw [← hx]) ⟨_, hO⟩
+
+example : (getNetwork (ip4OfBytes 192 168 10 90) "24".toList).toOption.map (fun r => (r.1.raw, r.2)) = some ([192, 168, 10, 0], 24) := by
+  decide +kernel
+
+/-- `a.inNetwork("n.n.n.n/D")` (text form; `parse_cidr` with the default flags, then the comparison): AssertionError for
+`len > 32`, RuntimeError when the network text has host bits, otherwise true iff the top `len` bits agree — before and after
+the CIDR repair.  Together with `in_network_iff` (tuple form) this is the whole of `inNetwork`. -/
+theorem in_network_text (a : IP4) (b0 b1 b2 b3 : UInt8) (D : Str) (hd : isDecStr D = true) :
+    inNetworkTextWith parseCidrS a (dotted [b0, b1, b2, b3] ++ '/' :: D) =
+      inNetResult 32 (a.toUnsigned false) (beDec [b0, b1, b2, b3]) (foldDig 10 0 D) ∧
+    inNetworkText a (dotted [b0, b1, b2, b3] ++ '/' :: D) =
+      inNetResult 32 (a.toUnsigned false) (beDec [b0, b1, b2, b3]) (foldDig 10 0 D) :=
+  ⟨inNetworkText_spec parseCidrS a _ b0 b1 b2 b3 _ (parseCidrS_prefixD b0 b1 b2 b3 D hd true false),
+   inNetworkText_spec parseCidr a _ b0 b1 b2 b3 _ (parseCidr_prefixD b0 b1 b2 b3 D hd true false)⟩
+
+example : inNetworkText (ip4OfBytes 10 1 2 3) "10.0.0.0/8".toList = .ok true ∧ inNetworkText (ip4OfBytes 11 1 2 3) "10.0.0.0/8".toList = .ok false ∧
+    inNetworkText (ip4OfBytes 10 1 2 3) "10.1.2.3/8".toList = .error .runtime := by decide +kernel
 
 example : parseCidr "10.1.0.0/16".toList true false = .ok (ip4OfBytes 10 1 0 0, 16) ∧
     parseCidr "10.1.0.0/255.255.0.0".toList true false = .ok (ip4OfBytes 10 1 0 0, 16) ∧
